@@ -83,5 +83,6 @@ def run(ctx):
     if fw:
         ctx.note('flush_worker exits on shutdown alone (reasoned exception: kill_logs calls flush_logs(0) itself)')
     shared.queue_discipline(ctx, '4')
+    shared.more_work_signal(ctx, '7')
     shared.sync_before_handover(ctx, '6')
     shared.replay_order(ctx, '5')
